@@ -217,6 +217,7 @@ func H_Hub_Step() {
 	// unregister: untrusted, state none, counter gone, connection closed
 	if op == opUnregister && onA {
 		zzvrt.Assert(!p.sA.Trusted(), "C10.unregister-still-trusted")
+		zzvrt.Assert(!p.sA.Trusted(), "C01.unregistered-ski-still-trusted")
 		zzvrt.Assert(p.sA.ConnectionStateDetail().State() == api.ConnectionStateNone, "C10.unregister-state")
 		_, has := h.connectionAttemptCounter[skiA]
 		zzvrt.Assert(!has, "C10.unregister-counter-left")
@@ -233,6 +234,7 @@ func H_Hub_Step() {
 	}
 	if op == opCancel && onA {
 		zzvrt.Assert(!p.sA.Trusted(), "C10.cancel-still-trusted")
+		zzvrt.Assert(!p.sA.Trusted(), "C01.cancelled-ski-still-trusted")
 		if p.cA != nil {
 			n := 0
 			for _, ev := range p.e.log.Ev {
